@@ -8,6 +8,9 @@
     post <now> <a1|a2|…>   -> <code> <dump>            a = labels@start@end@payload@annNames
     get <now>              -> <code> <items> <dump>
     wait <now>             -> <dump>
+    getc <now>             -> <code> <dump>            GET with an already cancelled request context
+    update <now> <rt>      -> ok|blocked <dump>        API.Update (configuration reload): resolve_timeout rt from now on
+    (after `blocked` every API op of the case answers `wedged`)
 -/
 import Driver.AlertsUtil
 import AM.Model.Ingest
@@ -71,6 +74,7 @@ structure St where
   lastTick : Option Int := none   -- last GC tick applied since the previous observation
   store : Store := []
   prev : List Alert := []         -- implementation's previous dump
+  aborted : Bool := false         -- a GET with a cancelled context was served while the provider held an alert
 
 partial def advance (σ : St) (now : Int) : St :=
   if σ.pgc > 0 ∧ σ.pNext ≤ now then
@@ -222,6 +226,30 @@ def step (σ : St) (op obs : List String) : St × List Msg :=
     let cur := parseAlerts dmp
     let t : List Msg := if σ.lastTick.isSome ∧ (afterGC σ).length < σ.prev.length then [.tag "gc:collected"] else []
     ({ σ with prev := cur, lastTick := none }, expectEq "wait.dump" (dumpS σ.store) dmp ++ checkGC σ cur ++ t)
+  -- a GET whose client is gone before the listing starts: whatever it answers, it is a read (nothing stored changes,
+  -- up to GC), and it must leave the API usable (see `update`)
+  | ["getc", now], [code, dmp] =>
+    let now := toInt! now
+    let σ := advance σ now
+    let cur := parseAlerts dmp
+    ({ σ with prev := cur, lastTick := none, aborted := σ.aborted || !cur.isEmpty },
+      expectEq "getc.dump" (dumpS σ.store) dmp ++ checkGC σ cur ++
+      [.tag (if cur.isEmpty then "getc:empty-provider" else if code = "200" then "getc:answered" else "getc:aborted")])
+  -- a configuration reload reaches the API.  It must return: the statements of C13 are about an API that answers
+  -- (`valid_alerts_are_stored`: a valid alert of a later POST is stored; `get_returns_unexpired`); an Update that is
+  -- still waiting for the API's lock after seconds of real time with no request in flight never will get it, and
+  -- every later POST / GET queues behind it.
+  | ["update", now, rt], [res, dmp] =>
+    let now := toInt! now
+    let σ := advance σ now
+    let cur := parseAlerts dmp
+    let pf : List Msg := if res = "ok" then [] else
+      [Msg.propfail "valid_alerts_are_stored" (if σ.aborted then "api-wedged-after-aborted-read" else "api-wedged")
+        s!"API.Update(resolve_timeout={rt}) at {now} did not return ({res}): no handler holds the API's lock, yet it is not free; later POSTs store nothing, later GETs never answer"]
+    ({ σ with prev := cur, lastTick := none, rt := if res = "ok" then toInt! rt else σ.rt },
+      expectEq "update.result" "ok" res ++ expectEq "update.dump" (dumpS σ.store) dmp ++ checkGC σ cur ++ pf ++
+      [.tag (if σ.aborted then "update:after-aborted-read" else "update")])
+  | _, ["wedged"] => (σ, [.tag "wedged"])
   | _, _ => (σ, [.diff "parse" "?" (" ".intercalate op)])
 
 def engine : Engine St where
